@@ -180,6 +180,11 @@ def Node.rotate (n : Node) : Node :=
            -- "Cleanup old tokens": received tokens past TOKEN_EXPIRATION_TIME are dropped; the run always completes
            recv := n.recv.filter (fun e => !decide (n.now > e.2 + Gen.tokenExpirationTime)) }
 
+/-- `store_on_nodes`: a store request goes to node `nid` only if a token was received from it and that token passes the
+    freshness test read from the source (`ts + TOKEN_EXPIRATION_TIME > now`) -/
+def Node.maySendStore (n : Node) (nid : Nat) : Bool :=
+  n.recv.any (fun e => e.1 == nid && Gen.sendTokenCmp.eval (e.2 + Gen.tokenExpirationTime) n.now)
+
 /-- `on_find_response`: `self.tokens[node.id] = (time.time(), token)` -/
 def Node.recvToken (n : Node) (nid : Nat) : Node :=
   { n with recv := if n.recv.any (fun e => e.1 == nid)
@@ -267,7 +272,7 @@ def Node.storeReq {Tok : Type} [DecidableEq Tok] (C : Crypto Tok) (n : Node) (r 
 def Node.findReq {Tok : Type} (C : Crypto Tok) (n : Node) (who : Ident) (nid target offset : Nat) (force : Bool) :
     Node × Option (Tok × List Nat) :=
   if n.blocked nid then (n, none) else
-  let vals := if force then [] else n.store.get target offset (some Gen.maxValuesInFind)
+  let vals := if force then [] else n.store.get target offset Gen.findLimit
   (n.noteQuery nid, some (n.genToken C who, vals))
 
 /-- `on_ping_request`: answered unless the requester is blocked; counts as a query for the rate limit -/
